@@ -400,7 +400,7 @@ fn currencies_differ(pattern: &str, n: usize) -> bool {
 
 fn mt110() -> Model {
     let base = body_of("110", ":20:REF1\n:21:CHQ1\n:30:250615\n:32B:EUR100,00\n:59:PAYEE NAME");
-    let dims = vec![("cheques", counts()), ("32a-currencies", ccy_patterns()), ("32-option", s(&["B", "A"]))];
+    let dims = vec![("cheques", counts()), ("32a-currencies", ccy_patterns()), ("32-option", s(&["B", "A", "A-then-B", "B-then-A", "last-differs"]))];
     let render = move |l: Labels| -> Value {
         let mut j = base.clone();
         let n: usize = l[0].parse().unwrap();
@@ -411,7 +411,15 @@ fn mt110() -> Model {
             c["21"] = fj("Field21NoOption", &format!("CHQ{i}"));
             remove_prefix(&mut c, "32");
             let ccy = ccy_at(l[1], i, n);
-            if l[2] == "A" {
+            // the option may differ from cheque to cheque: rule C2 is about the currency, whatever the option
+            let opt_a = match l[2] {
+                "A" => true,
+                "B" => false,
+                "A-then-B" => i % 2 == 0,
+                "B-then-A" => i % 2 == 1,
+                _ => i + 1 == n && n > 1,
+            };
+            if opt_a {
                 c["32A"] = fj("Field32A", &format!("250615{ccy}100,"));
             } else {
                 c["32B"] = fj("Field32B", &format!("{ccy}100,"));
